@@ -17,6 +17,36 @@ Ltac snorm := repeat rewrite sapp_assoc; cbn [String.append].
 (** ... and of conjunctions with constant members. *)
 Ltac bnorm := repeat (rewrite andb_false_r || rewrite andb_false_l || rewrite andb_true_r || rewrite andb_true_l).
 
+(** ** The scripts the four generators emit (run on a spanning set of field lists and options):
+    every global name such a script loads is a pinned builtin or a key of the globs dict the generator
+    returned with it, and every key is a fixed attrs name or carries a helper prefix - so by
+    [helper_names_injective] / [helper_names_not_fixed] nothing else can be looked up, in particular no
+    un-pinned builtin and no name of the defining module. *)
+Definition helper_shaped (k : string) : bool := existsb (fun r => prefix (role_prefix r) k) all_roles.
+
+Definition variant_ok (v : string * list string * list string) : bool :=
+  let '(_, free, keys) := v in
+  forallb (fun n => mem_str n pinned_builtins || mem_str n keys) free
+  && forallb (fun k => mem_str k (pinned_builtins ++ attrs_objects) || helper_shaped k) keys.
+
+Lemma tie_script_free_names : forallb variant_ok t_script_variants = true.
+Proof. vm_compute. reflexivity. Qed.
+
+Lemma tie_script_free_names_spec : forall g free keys n,
+  In (g, free, keys) t_script_variants -> In n free ->
+  In n pinned_builtins \/ In n (pinned_builtins ++ attrs_objects) \/ helper_shaped n = true.
+Proof.
+  intros g free keys n Hv Hn.
+  assert (H := tie_script_free_names). rewrite forallb_forall in H. specialize (H _ Hv).
+  cbn in H. apply andb_true_iff in H as [H1 H2].
+  rewrite forallb_forall in H1, H2. specialize (H1 _ Hn).
+  apply orb_true_iff in H1 as [H1|H1].
+  - left. now apply mem_str_In.
+  - apply mem_str_In in H1. specialize (H2 _ H1). apply orb_true_iff in H2 as [H2|H2].
+    + right. left. now apply mem_str_In.
+    + right. right. exact H2.
+Qed.
+
 (** ** The names of the per-field helpers: functions of the FIELD NAME only.
     [Converter._get_global_name] is translated with the state an earlier call may have left in
     the Converter instance ([memo]); the name must not depend on it. *)
